@@ -94,6 +94,13 @@ class C06(Check):
     def gen(self, rng, tier, i):
         ci = rng.chance(0.4)
         tree = gen_tree(rng, ci, rng.pick([0, 1, 2, 3, 4, 6]), [rng.pick([3, 10, 25, 60])])
+        if rng.chance(0.2):
+            # many entries with very short names: the tables are as dense as they can be
+            nd, nf = rng.pick([7, 16, 40]), rng.pick([0, 9, 30])
+            short = lambda k: '%x' % k if k < 16 else '%02x' % k
+            tree = ['d', '', [['d', short(k), [], []] for k in range(nd)], [['f' + short(k), rng.rbytes(rng.pick([0, 3]))] for k in range(nf)]]
+            if rng.chance(0.5):
+                tree = ['d', '', [['d', 'n', tree[2], []]], tree[3]]
         ivfc = [rng.pick([0, 0x20, 0x40, 0x123]), rng.randint(4, 16)] if rng.chance(0.5) else None
         if ivfc and ivfc[1] > 12 and rng.chance(0.7):
             ivfc[1] = rng.randint(4, 12)
